@@ -16,10 +16,36 @@ type RWMutex struct {
 	writerActive bool
 	wQueue       []*Task
 	active       int
-	readers      map[*Task]int
+	readers      []readerEnt // a slice, not a map (see fs.go)
 	readerWait   int
 	rBlocked     []*Task
 	rsem, wsem   byte // addresses for race annotations
+}
+
+type readerEnt struct {
+	t *Task
+	n int
+}
+
+//go:norace
+func (m *RWMutex) rcount(t *Task) int {
+	for i := range m.readers {
+		if m.readers[i].t == t {
+			return m.readers[i].n
+		}
+	}
+	return 0
+}
+
+//go:norace
+func (m *RWMutex) radd(t *Task, d int) {
+	for i := range m.readers {
+		if m.readers[i].t == t {
+			m.readers[i].n += d
+			return
+		}
+	}
+	m.readers = append(m.readers, readerEnt{t: t, n: d})
 }
 
 func where(m interface{}) string { return fmt.Sprintf("%p", m) }
@@ -32,7 +58,7 @@ func (m *RWMutex) holders() string {
 	}
 	if w := Cur(); w != nil {
 		for _, t := range w.tasks {
-			if m.readers[t] > 0 {
+			if m.rcount(t) > 0 {
 				s += fmt.Sprintf(" reader=%s", t.Name)
 			}
 		}
@@ -89,10 +115,7 @@ func (m *RWMutex) unlock() {
 	m.announced = false
 	for _, r := range m.rBlocked {
 		m.active++
-		if m.readers == nil {
-			m.readers = map[*Task]int{}
-		}
-		m.readers[r]++
+		m.radd(r, 1)
 		w.ready(r)
 	}
 	m.rBlocked = nil
@@ -103,7 +126,7 @@ func (m *RWMutex) unlock() {
 			i = w.rng.Intn(len(m.wQueue))
 		}
 		nw := m.wQueue[i]
-		m.wQueue = append(m.wQueue[:i:i], m.wQueue[i+1:]...)
+		m.wQueue = removeTask(m.wQueue, i)
 		m.wHolder = nw
 		w.ready(nw)
 	}
@@ -124,7 +147,7 @@ func (m *RWMutex) rlock() {
 	w.Yield("RLock")
 	t := w.cur
 	if m.announced {
-		if m.readers[t] > 0 {
+		if m.rcount(t) > 0 {
 			w.Stat("rlock-reentered-behind-writer")
 		}
 		m.rBlocked = append(m.rBlocked, t)
@@ -142,10 +165,7 @@ func (m *RWMutex) rlock() {
 		return
 	}
 	m.active++
-	if m.readers == nil {
-		m.readers = map[*Task]int{}
-	}
-	m.readers[t]++
+	m.radd(t, 1)
 }
 
 func (m *RWMutex) RUnlock() {
@@ -164,13 +184,13 @@ func (m *RWMutex) runlock() {
 	}
 	m.active--
 	t := w.cur
-	if m.readers[t] > 0 {
-		m.readers[t]--
+	if m.rcount(t) > 0 {
+		m.radd(t, -1)
 	} else {
 		// released on behalf of another task: legal in Go
 		for _, o := range w.tasks {
-			if m.readers[o] > 0 {
-				m.readers[o]--
+			if m.rcount(o) > 0 {
+				m.radd(o, -1)
 				break
 			}
 		}
@@ -267,7 +287,7 @@ func (m *Mutex) unlock() {
 			i = w.rng.Intn(len(m.queue))
 		}
 		nt := m.queue[i]
-		m.queue = append(m.queue[:i:i], m.queue[i+1:]...)
+		m.queue = removeTask(m.queue, i)
 		m.holder = nt
 		w.ready(nt)
 	} else {
@@ -342,4 +362,12 @@ func (o *Once) Do(f func()) {
 		defer func() { o.done = true }()
 		f()
 	}
+}
+
+//go:norace
+func removeTask(q []*Task, i int) []*Task {
+	for j := i; j+1 < len(q); j++ {
+		q[j] = q[j+1]
+	}
+	return q[:len(q)-1]
 }
